@@ -787,12 +787,18 @@ class _ExecutorManagerThread(threading.Thread):
                     executor is not None
                     and len(self.processes) < executor._max_workers
                 ):
-                    warnings.warn(
-                        "A worker stopped while some jobs were given to the "
-                        "executor. This can be caused by a too short worker "
-                        "timeout or by a memory leak.",
-                        UserWarning,
-                    )
+                    try:
+                        warnings.warn(
+                            "A worker stopped while some jobs were given to "
+                            "the executor. This can be caused by a too short "
+                            "worker timeout or by a memory leak.",
+                            UserWarning,
+                        )
+                    except Exception as e:
+                        # Warnings can be turned into errors (-W error): this
+                        # must not kill the executor manager thread before it
+                        # re-spawns the workers needed by the pending jobs.
+                        mp.util.info(f"{type(e).__name__}: {e}")
                     with executor._processes_management_lock:
                         executor._adjust_process_count()
                     executor = None
